@@ -168,7 +168,11 @@ class Contract(object):
         cls = q.rsplit(".", 1)[0] if "." in q else None
         total_paths = 0
         limits = []
+        import os
+        only = os.environ.get("PYVC_CASE")
         for cname, over in self.cases:
+            if only and only != cname:
+                continue                     # development aid: one case at a time
             tag = self.short + ("[%s]" % cname if cname else "")
 
             def thunk():
